@@ -394,7 +394,7 @@ namespace OpenMEEG {
         const BLAS_INT M = sizet_to_int(nlin());
         const BLAS_INT N = sizet_to_int(ncol());
         const BLAS_INT L = sizet_to_int(B.nlin());
-        DGEMM(CblasTrans,CblasTrans,L,N,M,1.0,data(),M,B.data(),N,0.0,C.data(),L);
+        DGEMM(CblasTrans,CblasTrans,N,L,M,1.0,data(),M,B.data(),L,0.0,C.data(),N);
     #else
         for (Index i=0; i<C.nlin(); ++i)
             for (Index j=0; j<C.ncol(); ++j) {
